@@ -106,6 +106,13 @@ func (w *W) Begin(id string) bool {
 	return true
 }
 
+// Touch tells the watchdog that the current case is making progress.
+func (w *W) Touch() {
+	w.mu.Lock()
+	w.curStart = time.Now()
+	w.mu.Unlock()
+}
+
 // End marks the end of the current case.
 func (w *W) End() {
 	w.mu.Lock()
